@@ -67,7 +67,8 @@ class World:
             return behaviour
 
         self.servers = [peers.ScriptedPeer(certs.identity(f"c16-s{i}", "ec"), make(i), name=f"S{i}") for i in range(3)]
-        self.hosts = ["127.0.0.1", "localhost", "alpha.test"]
+        # servers 0 and 1 are reached under the same host name: their URLs differ in the port only
+        self.hosts = ["127.0.0.1", "127.0.0.1", "alpha.test"]
         self.hostmap = peers.HostMap({"alpha.test": "127.0.0.1"})
         self.hostmap.__enter__()
 
@@ -292,6 +293,12 @@ def all_small_graphs(world):
             choices.append(opts)
         for combo in itertools.product(*choices):
             out.append((nodes, dict(zip(nodes, combo)), nodes[0], f"all-N{n}"))
+    # URLs that differ in nothing but the port (same host, path and query on two servers), then in the host only
+    pa, pb, pc = (0, 7), (1, 7), (2, 7)
+    out.append(([pa, pb], {pa: ("node", pb, 31), pb: ("final", 20)}, pa, "chain-1-port-only"))
+    out.append(([pa, pb, pc], {pa: ("node", pb, 30), pb: ("node", pc, 31), pc: ("final", 20)}, pa, "chain-2-port-then-host-only"))
+    out.append(([pa, pb], {pa: ("node", pb, 31), pb: ("node", pa, 31)}, pa, "cycle-2-port-only"))
+    out.append(([pb, pa], {pb: ("node", pa, 30), pa: ("final", 51)}, pb, "chain-1-port-only-to-51"))
     for length in range(0, 9):
         nodes = [(i % 3, i) for i in range(length + 1)]
         edges = {nodes[i]: ("node", nodes[i + 1], (30, 31, 32, 35, 39)[i % 5]) for i in range(length)}
